@@ -1,7 +1,7 @@
 (* C08 — an observation is the network-canonical prefix of what the node holds.
    Property theorems only; proofs live in Proofs/ObservationProofs.v. *)
 From Verif Require Import Base.Util Model.Outcome Model.Observation Proofs.SortProofs Proofs.ObservationProofs
-  Gen.Generated.
+  Proofs.K08Proofs Gen.Generated.
 Open Scope N_scope.
 
 (* Performables: for every store content (any number of staged results, any sizes >= 2 bytes), every
@@ -82,6 +82,13 @@ Theorem C08_memo_transparent :
     forall w, In w ws -> mlookup (m_tab (mupdate shuffle m src ws)) w = Some (shuffle w src).
 Proof. exact memo_transparent. Qed.
 Print Assumptions C08_memo_transparent.
+
+(* The boolean checker applied to the implementation's observed observation decides the property
+   clauses (canonical prefix, cut only by cap / byte limit, proposals from the node's own unfiltered
+   views without repeats, leading block history, nothing twice, twin instance agrees). *)
+Theorem C08_checker_sound : forall k, K08 k = true -> C08_spec k.
+Proof. exact K08_sound. Qed.
+Print Assumptions C08_checker_sound.
 
 Theorem C08_gen_limits :
   ObservationPerformablesLimit = 100%Z /\ ObservationLogRecoveryProposalsLimit = 5%Z /\
